@@ -10,6 +10,7 @@ import (
 	"sync/atomic"
 	"testing/synctest"
 	"time"
+	_ "time/tzdata"
 
 	"example.com/scion-time/net/ntske"
 
@@ -31,6 +32,7 @@ type c12Step struct {
 }
 
 type c12Sched struct {
+	Pre     int64       `json:"virtual_time_before_creation_ns,omitempty"` // moves the history next to a daylight-saving switch of the local zone
 	InitGap int64       `json:"gap_after_creation_ns"`
 	Workers [][]c12Step `json:"workers"`
 	Burst   bool        `json:"synchronised_bursts,omitempty"` // every worker follows the same schedule
@@ -49,8 +51,34 @@ type c12Problem struct {
 var c12Gaps = []time.Duration{0, 1, time.Minute, time.Hour, c12Day - time.Minute, c12Day - 1, c12Day, c12Day + 1, 2 * c12Day, 2*c12Day + 1,
 	71 * time.Hour, c12Validity - 1, c12Validity, c12Validity + 1, 73 * time.Hour, 10 * c12Day}
 
+// c12DST holds the distances from the start of virtual time (2000-01-01 UTC) to the daylight-saving
+// switches of the local zone in that year; c12SetLocalZone fills it.
+var c12DST []time.Duration
+
+// c12SetLocalZone looks up the daylight-saving switches of the zone the process runs in (the zone database
+// is linked in from the Go distribution): lifetimes are durations, whatever the wall clock of the local
+// zone does meanwhile.
+func c12SetLocalZone() string {
+	// the zone is chosen by the environment (the check script sets TZ for this property): assigning
+	// time.Local in a running process would race with every time.Now()
+	loc := time.Local
+	t0 := time.Date(2000, 1, 1, 0, 0, 0, 0, time.UTC)
+	_, prev := t0.In(loc).Zone()
+	for h := 1; h < 366*24; h++ {
+		t := t0.Add(time.Duration(h) * time.Hour)
+		if _, off := t.In(loc).Zone(); off != prev {
+			c12DST = append(c12DST, t.Sub(t0))
+			prev = off
+		}
+	}
+	return loc.String()
+}
+
 func c12Gen(rng *rand.Rand) c12Sched {
 	var s c12Sched
+	if len(c12DST) > 0 && rng.IntN(3) == 0 {
+		s.Pre = int64(c12DST[rng.IntN(len(c12DST))] - time.Duration(rng.Int64N(int64(5*c12Day))))
+	}
 	s.InitGap = int64(c12Gaps[rng.IntN(len(c12Gaps))])
 	nw := 1
 	switch rng.IntN(4) {
@@ -141,6 +169,7 @@ func c12RunOne(s c12Sched) (rprobs []c12Problem, rst c12Stats, bubble string) {
 		mu.Unlock()
 	}()
 	synctest.Run(func() {
+		time.Sleep(time.Duration(s.Pre))
 		start := time.Now()
 		p := ntske.NewProvider()
 		keys := map[int]c12Key{} // id -> first observation
@@ -472,6 +501,10 @@ func init() {
 				}
 			}
 		}()
+		if z := c12SetLocalZone(); z != "" {
+			r.Set("local_zone", z)
+			r.Set("daylight_saving_switches_in_virtual_year", len(c12DST))
+		}
 		n := r.Pick(400, 30000)
 		var tot c12Stats
 		var tmu sync.Mutex
